@@ -9,12 +9,15 @@ from hypothesis import strategies as st
 
 from pbt.core import harness as H
 from pbt.core import modelgen as M
+from pbt.core import docgen as D
 
 PID = "C16"
 LEVEL = "exploration"
 RULE = (
     "Hypothesis-generated valid instances of every class (plus extra, denser OFX roots and message sets mixing bank / "
-    "credit-card / investment statement and closing-statement wrappers, SECLISTs).  (1) flat access: the set of aggregates "
+    "credit-card / investment statement and closing-statement wrappers, SECLISTs); three in five instances are not built by "
+    "the constructor but obtained by parsing the same description as an element tree / XML / SGML document, most of those with "
+    "1-3 unknown or vendor tags inserted (C07's contaminator: names of other classes' attributes included).  (1) flat access: the set of aggregates "
     "reachable through present non-repeated sub-aggregates is computed from declarations; for every name declared by exactly "
     "one of them and by no other class on the way (nor as any class attribute / property / method) getattr(instance, name) must "
     "return the stored object.  (2) shortcuts (statements, securities, signon, statement, profile, account, transactions, "
@@ -223,11 +226,28 @@ def check_case(case):
     H.setup_path()
     with warnings.catch_warnings():
         warnings.simplefilter("ignore")
+        names = list(case.get("names", MISS_NAMES))
+        via = case.get("via")
         try:
-            inst = M.build(case["inst"])
+            if via:
+                # "every model instance" includes the ones a parser hands out: the same description as a document
+                # (date-times in offset notation, strings escaped), optionally with unknown / vendor tags in it (C07: they
+                # are ignored) - some of them named like attributes that exist further down
+                from ofxtools.models.base import Aggregate
+                from pbt.checks import c07
+
+                tree = D.to_etree(case["inst"])
+                if case.get("ins"):
+                    c07.contaminate(tree, case["inst"], case["ins"])
+                    names += [t.lower() for t in c07.UNKNOWN_LEAF + c07.UNKNOWN_AGG] + ["intu.bid", "bid"]
+                inst = Aggregate.from_etree(tree) if via == "etree" else c07.convert_via(via, tree)
+            else:
+                inst = M.build(case["inst"])
         except Exception:
             return []
-        res = check_instance(inst, case.get("names", MISS_NAMES))
+        res = check_instance(inst, names)
+        if via:
+            res = [(k + "/parsed-instance", d) for k, d in res]
     # one failure per key is enough
     seen, out = set(), []
     for k, d in res:
@@ -285,7 +305,19 @@ def _worker(job):
     for name in names:
         cls = U[name]
         inst_st = M.instance_st(cls, p0=0.85, max_members=4) if dense else M.instance_st(cls)
-        strat = st.builds(lambda d, extra: {"inst": d, "names": MISS_NAMES + extra}, inst_st, st.lists(st.text("abcdefghijklmnopqrstuvwxyz_", min_size=3, max_size=10).map(lambda x: "zz" + x), max_size=2))
+        def mk(d, extra, via, ins):
+            c = {"inst": d, "names": MISS_NAMES + extra}
+            if via:
+                c["via"] = via
+                if ins:
+                    c["ins"] = ins
+            return c
+
+        strat = st.builds(
+            mk, inst_st, st.lists(st.text("abcdefghijklmnopqrstuvwxyz_", min_size=3, max_size=10).map(lambda x: "zz" + x), max_size=2),
+            st.sampled_from([None, None, "etree", "xml", "sgml"]),
+            st.lists(st.tuples(st.integers(0, 40), st.integers(0, 12), st.integers(0, 4), st.integers(0, 30)).map(list), min_size=0, max_size=3),
+        )
 
         def body(case):
             stt = M.desc_stats(case["inst"])
@@ -297,6 +329,8 @@ def _worker(job):
                 labs.append("has closing-statement wrappers")
             if "SECLIST" in stt["classes"]:
                 labs.append("has SECLIST")
+            if case.get("via"):
+                labs.append("instance obtained by parsing" + (" a document with unknown tags" if case.get("ins") else ""))
             s.case(case, nontrivial=stt["members"] >= 1 and stt["depth"] >= 2, labels=labs)
             for k, d in check_case(case):
                 s.fail(k, case, d)
